@@ -101,7 +101,13 @@ def add_values(I, st, fr, e, a, b):
 
 def sub_values(I, st, fr, e, a, b):
     if isinstance(a, VNat) and isinstance(b, VNat):
-        I.pre_ge(st, fr, e, "-", a.p, b.p, f"{show_poly(b.p)} <= {show_poly(a.p)} (no underflow)")
+        import rules_terms
+        r = None if st.ge(a.p, b.p) else rules_terms.trusted_sub(I, st, fr, a.p, b.p)
+        if r:
+            I.oblige("PRE", fr, e, "-", f"{show_poly(b.p)} <= {show_poly(a.p)} (no underflow)", True, r)
+            st.add_ge(a.p - b.p)
+        else:
+            I.pre_ge(st, fr, e, "-", a.p, b.p, f"{show_poly(b.p)} <= {show_poly(a.p)} (no underflow)")
         return VNat(a.p - b.p)
     if isinstance(a, VSeq) and isinstance(b, VSeq):
         I.pre_eq(st, fr, e, "array -", t_len(a.t), t_len(b.t))
@@ -173,6 +179,14 @@ def h_opt_map(I, st, fr, e, c, a):
         return out
     if isinstance(v, VTop):
         return [(st, VTop("map " + v.why), None)]
+    if isinstance(v, VUser):
+        # an Option-valued element of unknown tag: both cases
+        s2 = st.copy()
+        inner = VNat(Poly.atom(("somev", v.key)))
+        out = [(s2, NONE, None)]
+        for (s3, r, ctl) in I.apply_value(a[1], [inner], st, fr, e):
+            out.append((s3, some(r), ctl))
+        return out
     raise NotImplementedError("map of " + repr(v))
 
 
@@ -201,6 +215,10 @@ def h_ok_or(I, st, fr, e, c, a):
             return [(st, err(a[1]), None)]
         return [(st, ok(v.payload[0]), None)]
     return [(st, VTop("ok_or"), None)]
+
+
+def h_res_map(I, st, fr, e, c, a):
+    return h_opt_map(I, st, fr, e, c, a)
 
 
 def h_try_branch(I, st, fr, e, c, a):
@@ -240,6 +258,8 @@ def h_identity_ref(I, st, fr, e, c, a):
 
 
 def h_clone(I, st, fr, e, c, a):
+    if c is not None and c.get("self_ty") is not None and I.facts.tystr(c["self_ty"]).startswith("std::rc::Rc"):
+        return [(st, a[0], None)]     # cloning a handle shares the cell
     return [(st, deref(I, st, a[0]), None)]
 
 
